@@ -139,7 +139,8 @@ def compile_signature(msg):
 
 def check_C03(tier, seed):
     out = Outcome("C03", tier, seed)
-    runs = [("types", {"assert_types": True, "derive_variants": True, "grammar_scale": 0.5}, 1.0),
+    runs = [("types", {"assert_types": True, "derive_variants": True, "grammar_scale": 0.9}, 1.0),
+            ("mix", {"assert_types": True, "grammar_scale": 0.4}, 1.0),
             ("keywords", {"assert_types": True, "grammar_scale": 0.3}, 1.0),
             ("userfn", {"assert_types": True, "grammar_scale": 0.15}, 1.0),
             ("leftrec", {"assert_types": True, "derive_variants": True, "grammar_scale": 0.12}, 1.0)]
